@@ -122,10 +122,23 @@ def gen_corpus(gen, outdir, tier, seed, extra=()):
     return json.load(open(st)) if os.path.exists(st) else {}
 
 
+def _sh(cmd, cwd, timeout):
+    """common.sh, but output that is not UTF-8 (goderive printing half a letter) is kept, not a crash of the check."""
+    return subprocess.run(cmd, cwd=cwd, env=common.GOENV, timeout=timeout, stdout=subprocess.PIPE, stderr=subprocess.PIPE,
+                          text=True, errors="backslashreplace")
+
+
 def goderive(binp, cwd, args, timeout=20, mem_gb=4):
     t = time.time()
-    rc, out, to = common.run_goderive(binp, cwd, list(args), timeout=timeout, mem_gb=mem_gb)
-    # (run_goderive execs goderive in place of the shell, so the timeout kill hits goderive itself)
+    # as common.run_goderive: wall-clock and memory limit, goderive exec'd in place of the shell so that the timeout
+    # kill hits goderive itself
+    pre = "ulimit -v %d; exec " % (mem_gb * 1024 * 1024)
+    cmd = ["bash", "-c", pre + " ".join(["'%s'" % binp] + ["'%s'" % a for a in args])]
+    try:
+        p = _sh(cmd, cwd, timeout)
+        rc, out, to = p.returncode, p.stderr + p.stdout, False
+    except subprocess.TimeoutExpired:
+        rc, out, to = -1, "timeout", True
     return {"rc": rc, "out": out, "timeout": to, "secs": round(time.time() - t, 2)}
 
 
@@ -291,7 +304,7 @@ def strace_mutations(log_path, cwd):
 def run_strace(binp, cwd, args, log, timeout=60):
     cmd = ["strace", "-f", "-y", "-e", "trace=file", "-o", log, binp] + list(args)
     try:
-        p = common.sh(cmd, cwd=cwd, timeout=timeout)
+        p = _sh(cmd, cwd, timeout)
         return {"rc": p.returncode, "out": p.stderr + p.stdout, "timeout": False}
     except subprocess.TimeoutExpired:
         return {"rc": -1, "out": "timeout", "timeout": True}
